@@ -503,6 +503,98 @@ def extract_guards(src: Path) -> str:
                        "   -- send_task: `try: while not self.closed: … finally: for b in self.stream_buffers.values(): await b.close()`")
     except Exception as e:
         fail("h2SendTaskReleasesSenders", str(e))
+    # C06: `self.request_complete` belongs to the request in progress - reset when a new h11.Request arrives (before its stream
+    # exists), set at its EndOfMessage, assigned nowhere else; and HTTPStream.app_send hands the validated headers of
+    # http.response.start to the protocol as they are (h11 decides about keep-alive from the application's `connection: close`).
+    try:
+        h11tree = parse(src / "protocol/h11.py")
+        fn = find_def(h11tree, "H11Protocol", "_handle_events")
+        branches = {}
+        for n in ast.walk(fn):  # type: ignore
+            if isinstance(n, ast.If):
+                t = ast.unparse(n.test)
+                if t == "isinstance(event, h11.Request)":
+                    branches["request"] = n.body
+                elif t == "isinstance(event, h11.EndOfMessage)":
+                    branches["eom"] = n.body
+        if "request" not in branches or "eom" not in branches:
+            fail("h11RequestResetsComplete", "the `isinstance(event, h11.Request)` / `isinstance(event, h11.EndOfMessage)` branches of _handle_events were not found")
+        else:
+            def assigns(stmts, value):
+                return [i for i, st in enumerate(stmts) if isinstance(st, ast.Assign) and ast.unparse(st) == f"self.request_complete = {value}"]
+            rb = branches["request"]
+            created = next((i for i, st in enumerate(rb) if "_create_stream(" in ast.unparse(st)), len(rb))
+            resets = bool(assigns(rb, "False")) and assigns(rb, "False")[0] < created and not assigns(rb, "True")
+            sets = bool(assigns(branches["eom"], "True")) and not assigns(branches["eom"], "False")
+            cls = find_def(h11tree, "H11Protocol")
+            elsewhere = []
+            for f in cls.body:  # type: ignore
+                if isinstance(f, (ast.FunctionDef, ast.AsyncFunctionDef)) and f.name not in ("__init__", "_handle_events"):
+                    elsewhere += [f.name for n in ast.walk(f) if isinstance(n, (ast.Assign, ast.AugAssign, ast.AnnAssign)) and "self.request_complete" in ast.unparse(
+                        n.targets[0] if isinstance(n, ast.Assign) else n.target)]
+            inside = [n for n in ast.walk(fn) if isinstance(n, ast.Assign) and ast.unparse(n.targets[0]) == "self.request_complete"]  # type: ignore
+            if elsewhere or len(inside) != len(assigns(rb, "False")) + len(assigns(branches["eom"], "True")):
+                fail("h11RequestResetsComplete", f"self.request_complete is also assigned outside the Request / EndOfMessage branches ({elsewhere or '_handle_events'})")
+            else:
+                out.append(f"def h11RequestResetsComplete : Bool := {'true' if resets else 'false'}"
+                           "   -- `self.request_complete = False` in the h11.Request branch of _handle_events, before `_create_stream`")
+                out.append(f"def h11EomSetsComplete : Bool := {'true' if sets else 'false'}"
+                           "   -- `self.request_complete = True` in the h11.EndOfMessage branch")
+    except Exception as e:
+        fail("h11RequestResetsComplete", str(e))
+    # the server's own `connection: close` (request maximum) is added to FINAL response heads only: the append sits inside the
+    # `event.status_code >= 200` branch of H11Protocol.stream_send(Response); the informational branch (the 101 of a websocket
+    # accept) sends the stream's headers and the configured ones, nothing else
+    try:
+        fn = find_def(parse(src / "protocol/h11.py"), "H11Protocol", "stream_send")
+        final_if = None
+        for n in ast.walk(fn):  # type: ignore
+            if isinstance(n, ast.If) and isinstance(n.test, ast.Compare) and ast.unparse(n.test.left) == "event.status_code" and final_if is None:
+                final_if = n
+        if final_if is None or not final_if.orelse:
+            fail("h11CloseOnFinalOnly", "`if event.status_code >= 200: ... else: ...` not found in H11Protocol.stream_send")
+        else:
+            def close_appends(nodes):
+                return [n for st in nodes for n in ast.walk(st) if isinstance(n, ast.Call) and ast.unparse(n).replace('"', "'") == "headers.append((b'connection', b'close'))"]
+            everywhere = close_appends(fn.body)  # type: ignore
+            inside = close_appends(final_if.body)
+            info_calls = [n for st in final_if.orelse for n in ast.walk(st) if isinstance(n, ast.Call) and ast.unparse(n.func) == "h11.InformationalResponse"]
+            info_hdrs = [ast.unparse(kw.value).replace('"', "'") for c in info_calls for kw in c.keywords if kw.arg == "headers"]
+            plain = ["list(chain(event.headers, self.config.response_headers('h11')))"]
+            only_final = len(everywhere) == 1 and len(inside) == 1 and info_hdrs == plain
+            out.append(f"def h11CloseOnFinalOnly : Bool := {'true' if only_final else 'false'}"
+                       "   -- stream_send(Response): `headers.append((b'connection', b'close'))` only inside `if event.status_code >= 200:`; the 1xx branch sends chain(event.headers, response_headers)")
+    except Exception as e:
+        fail("h11CloseOnFinalOnly", str(e))
+    try:
+        fn = find_def(parse(src / "protocol/http_stream.py"), "HTTPStream", "app_send")
+        branch = None
+        for n in ast.walk(fn):  # type: ignore
+            if isinstance(n, ast.If) and "'http.response.start'" in ast.unparse(n.test) and branch is None:
+                branch = n.body
+        if branch is None:
+            fail("httpStartHeadersVerbatim", "the http.response.start branch of HTTPStream.app_send was not found")
+        else:
+            calls = [n for st in branch for n in ast.walk(st) if isinstance(n, ast.Call) and ast.unparse(n.func) == "Response"]
+            hdr = [kw.value for c in calls for kw in c.keywords if kw.arg == "headers"]
+            if len(calls) != 1 or len(hdr) != 1:
+                fail("httpStartHeadersVerbatim", "expected exactly one Response(..., headers=...) in the http.response.start branch")
+            else:
+                def is_validated(e):
+                    return (isinstance(e, ast.Call) and ast.unparse(e.func) == "build_and_validate_headers" and len(e.args) == 1
+                            and re.fullmatch(r"(self\.response|message)\.get\('headers', \[\]\)", ast.unparse(e.args[0])) is not None)
+                e = hdr[0]
+                verbatim = is_validated(e)
+                if isinstance(e, ast.Name):
+                    defs = [st for st in branch for n in ast.walk(st) if isinstance(n, (ast.Assign, ast.AugAssign)) and e.id in ast.unparse(
+                        n.targets[0] if isinstance(n, ast.Assign) else n.target).split()]
+                    mut = [n for st in branch for n in ast.walk(st) if isinstance(n, ast.Call) and isinstance(n.func, ast.Attribute)
+                           and ast.unparse(n.func.value) == e.id]
+                    verbatim = len(defs) == 1 and isinstance(defs[0], ast.Assign) and is_validated(defs[0].value) and not mut
+                out.append(f"def httpStartHeadersVerbatim : Bool := {'true' if verbatim else 'false'}"
+                           "   -- HTTPStream.app_send: `Response(headers=build_and_validate_headers(<message>.get('headers', [])), ...)`, nothing added, dropped or rewritten")
+    except Exception as e:
+        fail("httpStartHeadersVerbatim", str(e))
     # suppress_body
     try:
         fn = find_def(parse(src / "utils.py"), "suppress_body")
@@ -1365,6 +1457,63 @@ def extract_ws_guards(src: Path) -> str:
                 out.append(f"def versionAccepted (v : Option HC.Bytes) : Bool :=\n  {neg}{x}")
     except Exception as e:
         fail("ws version", f"{type(e).__name__}: {e}")
+    # ---- Handshake.accept: which subprotocol named by the application is refused (C12 / C11).  The test of
+    #      `if subprotocol is not None: if <test>: raise … else: headers.append((b"sec-websocket-protocol", subprotocol.encode()))`
+    #      as a Lean function of what the client offered (`self.subprotocols`: None = no header) and the application's choice.
+    try:
+        fn = find_def(parse(src / "protocol/ws_stream.py"), "Handshake", "accept")
+        outer = [n for n in (fn.body if fn is not None else []) if isinstance(n, ast.If) and ast.unparse(n.test) == "subprotocol is not None"]  # type: ignore
+        uses = [n for n in ast.walk(fn) if isinstance(n, ast.Name) and n.id == "subprotocol"] if fn is not None else []
+
+        def trs(n: ast.AST) -> Optional[str]:
+            u = ast.unparse(n)
+            if u == "self.subprotocols":                      # truth value of Optional[List[str]]
+                return "(match offered with | some l => !l.isEmpty | none => false)"
+            if isinstance(n, ast.UnaryOp) and isinstance(n.op, ast.Not):
+                x = trs(n.operand)
+                return None if x is None else f"(!{x})"
+            if isinstance(n, ast.BoolOp):
+                xs = [trs(v) for v in n.values]
+                if None in xs:
+                    return None
+                return "(" + (" && " if isinstance(n.op, ast.And) else " || ").join(xs) + ")"  # type: ignore
+            if isinstance(n, ast.Compare) and len(n.ops) == 1:
+                l, op, r = ast.unparse(n.left), n.ops[0], ast.unparse(n.comparators[0])
+                if l == "self.subprotocols" and r == "None":
+                    if isinstance(op, (ast.Is, ast.Eq)):
+                        return "offered.isNone"
+                    if isinstance(op, (ast.IsNot, ast.NotEq)):
+                        return "offered.isSome"
+                if l == "subprotocol" and r == "self.subprotocols":
+                    # (`in` / `not in` on None raise TypeError out of accept: counted as refused / not found)
+                    if isinstance(op, ast.NotIn):
+                        return "(match offered with | some l => !l.contains p | none => true)"
+                    if isinstance(op, ast.In):
+                        return "(match offered with | some l => l.contains p | none => false)"
+            return None
+
+        if fn is None or len(outer) != 1 or outer[0].orelse or len(outer[0].body) != 1 or not isinstance(outer[0].body[0], ast.If):
+            fail("subprotocolRefused", "Handshake.accept: expected one `if subprotocol is not None:` holding one `if`")
+        else:
+            inner = outer[0].body[0]
+            inside = sum(1 for n in ast.walk(outer[0]) if isinstance(n, ast.Name) and n.id == "subprotocol")
+            then_, else_ = [ast.unparse(x) for x in inner.body], [ast.unparse(x) for x in inner.orelse]
+            add = "headers.append((b'sec-websocket-protocol', subprotocol.encode()))"
+            x = trs(inner.test)
+            if len(uses) != inside:
+                fail("subprotocolRefused", "Handshake.accept uses `subprotocol` outside `if subprotocol is not None:`")
+            elif x is None:
+                fail("subprotocolRefused", f"test `{ast.unparse(inner.test)}` not translatable")
+            elif len(then_) == 1 and then_[0].startswith("raise ") and else_ == [add]:
+                out.append(f"/-- `Handshake.accept` refuses the application's subprotocol `p`: `if {ast.unparse(inner.test)}: {then_[0][:40]}` -/")
+                out.append(f"def subprotocolRefused (offered : Option (List HC.Bytes)) (p : HC.Bytes) : Bool :=\n  {x}")
+            elif then_ == [add] and len(else_) == 1 and else_[0].startswith("raise "):
+                out.append(f"/-- `Handshake.accept` refuses the application's subprotocol `p`: `if {ast.unparse(inner.test)}: <append> else: raise` -/")
+                out.append(f"def subprotocolRefused (offered : Option (List HC.Bytes)) (p : HC.Bytes) : Bool :=\n  !{x}")
+            else:
+                fail("subprotocolRefused", f"branches are {then_} / {else_}: expected a raise and the append of (b'sec-websocket-protocol', subprotocol.encode())")
+    except Exception as e:
+        fail("subprotocolRefused", f"{type(e).__name__}: {e}")
     # ---- WSStream._handle_events, CloseConnection while REMOTE_CLOSING: is the client's code recorded before the echo is awaited?
     try:
         fn = find_def(parse(src / "protocol/ws_stream.py"), "WSStream", "_handle_events")
@@ -1394,6 +1543,92 @@ def extract_ws_guards(src: Path) -> str:
     return "\n".join(out)
 
 
+def extract_lifespan_send(src: Path) -> str:
+    """C14: the dispatch of `Lifespan.asgi_send` of both workers - message type -> what is done with it - and, for the two
+    `lifespan.*.failed` branches, whether the arguments of the raised LifespanFailureError can be evaluated for EVERY dict
+    message of that type (constants and `message.get(<const>, <const>)` only: the ASGI specification makes `message` optional)."""
+    out = ["/- GENERATED by tools/extract.py — Lifespan.asgi_send (asyncio/lifespan.py, trio/lifespan.py): message type -> effect — do not edit -/",
+           "namespace HC.Extracted.LifespanSend",
+           "/-- `raiseFailure stage setsEventFirst argsTotal`: `raise LifespanFailureError(stage, …)`, after `self.<stage>.set()` when\n"
+           "    `setsEventFirst`; `argsTotal` = the arguments read the message only through `message.get(key, default)` (no key of the\n"
+           "    message other than `type` is required) -/",
+           "inductive Effect | setStartup | setShutdown | raiseFailure (stage : String) (setsEventFirst argsTotal : Bool) | raiseUnexpected",
+           "deriving Repr, DecidableEq"]
+
+    def total(n: ast.AST) -> bool:
+        if isinstance(n, ast.Constant):
+            return True
+        return (isinstance(n, ast.Call) and ast.unparse(n.func) == "message.get" and len(n.args) == 2 and not n.keywords
+                and all(isinstance(a, ast.Constant) for a in n.args))
+
+    def effect(body: List[ast.stmt]) -> Optional[str]:
+        sets_first = False
+        if len(body) == 2 and isinstance(body[1], ast.Raise) and ast.unparse(body[0]) in ("self.startup.set()", "self.shutdown.set()"):
+            # `self.<stage>.set()` before the raise (the shape of the asyncio worker before b14e22f, Runtime.failedSetsEvent)
+            e = effect(body[1:])
+            stage = ast.unparse(body[0]).split(".")[1]
+            if e is not None and e.startswith(f".raiseFailure {q(stage)} false "):
+                return e.replace(" false ", " true ", 1)
+            return None
+        if len(body) != 1:
+            return None
+        st = body[0]
+        u = ast.unparse(st)
+        if u == "self.startup.set()":
+            return ".setStartup"
+        if u == "self.shutdown.set()":
+            return ".setShutdown"
+        if isinstance(st, ast.Raise) and st.cause is None and isinstance(st.exc, ast.Call) and not st.exc.keywords:
+            cls = ast.unparse(st.exc.func)
+            args = st.exc.args
+            if cls == "LifespanFailureError" and len(args) >= 1 and isinstance(args[0], ast.Constant) and isinstance(args[0].value, str):
+                return f".raiseFailure {q(args[0].value)} false {'true' if all(total(a) for a in args) else 'false'}"
+            if cls == "UnexpectedMessageError":
+                return ".raiseUnexpected"
+        return None
+
+    for worker in ("asyncio", "trio"):
+        item = f"{worker}SendTable"
+        try:
+            fn = find_def(parse(src / worker / "lifespan.py"), "Lifespan", "asgi_send")
+            if fn is None or len([s for s in fn.body if not (isinstance(s, ast.Expr) and isinstance(s.value, ast.Constant))]) != 1 \
+                    or not isinstance(fn.body[-1], ast.If):
+                fail(item, "Lifespan.asgi_send is not one if/elif chain")
+                continue
+            node: Any = fn.body[-1]
+            rows: List[Tuple[str, str]] = []
+            els: Optional[str] = None
+            ok = True
+            while True:
+                t = node.test
+                if not (isinstance(t, ast.Compare) and len(t.ops) == 1 and isinstance(t.ops[0], ast.Eq) and ast.unparse(t.left) == "message['type']"
+                        and isinstance(t.comparators[0], ast.Constant) and isinstance(t.comparators[0].value, str)):
+                    fail(item, f"test `{ast.unparse(t)}` is not `message['type'] == <str>`")
+                    ok = False
+                    break
+                e = effect(node.body)
+                if e is None:
+                    fail(item, f"branch {t.comparators[0].value!r} does `{'; '.join(ast.unparse(x) for x in node.body)[:100]}`")
+                    ok = False
+                    break
+                rows.append((t.comparators[0].value, e))
+                if len(node.orelse) == 1 and isinstance(node.orelse[0], ast.If):
+                    node = node.orelse[0]
+                    continue
+                els = effect(node.orelse)
+                if els is None:
+                    fail(item, f"the final else does `{'; '.join(ast.unparse(x) for x in node.orelse)[:100]}`")
+                    ok = False
+                break
+            if ok:
+                out.append(f"def {worker}SendTable : List (String × Effect) :=\n  [" + ",\n   ".join(f"({q(k)}, {e})" for k, e in rows) + "]")
+                out.append(f"def {worker}SendElse : Effect := {els}")
+        except Exception as e:
+            fail(item, f"{type(e).__name__}: {e}")
+    out += ["end HC.Extracted.LifespanSend", ""]
+    return "\n".join(out)
+
+
 def main() -> int:
     ap = argparse.ArgumentParser()
     ap.add_argument("--repo", default="/repo")
@@ -1404,7 +1639,8 @@ def main() -> int:
     outd.mkdir(parents=True, exist_ok=True)
     for name, fn in [("Cli", extract_cli), ("Consts", extract_consts), ("Guards", extract_guards), ("Excepts", extract_excepts),
                      ("H11Tables", extract_h11_tables), ("Limits", extract_limits), ("Atomic", extract_atomic), ("Runtime", extract_runtime),
-                     ("AppExit", extract_app_exit), ("H2Init", extract_h2_init), ("WsGuards", extract_ws_guards)]:
+                     ("AppExit", extract_app_exit), ("H2Init", extract_h2_init), ("WsGuards", extract_ws_guards),
+                     ("LifespanSend", extract_lifespan_send)]:
         CURRENT[0] = name
         try:
             text = fn(src)
